@@ -251,6 +251,11 @@ def _run_stream(case, rec):
                     'first_frame_hex': common.hexs(frames[0], 120)})
 
 
+_ALT_TAIL_A = b'\xff' * 48
+_ALT_TAIL_B = (b'\x01A\x03abc\x05\x00\x00\x00\x00\x01\x02zzzz' * 3 +
+               b'\x01\x00\x01\x00\x00\x00\x04\x00\x0a\x00\x0b\xce')
+
+
 def _run_mutants(case, rec):
     tail = case['tail']
     for data in case['inputs']:
@@ -269,6 +274,28 @@ def _run_mutants(case, rec):
                               {'type': 'mutants', 'inputs': [d], 'tail': b''},
                               observed=repr(u.value)[:200],
                               expected=common.hexs(d[:7]))
+                continue
+            # the bytes it says it consumed are all it may have looked at:
+            # same result with nothing, and with other bytes, after them
+            n = u.value[0]
+            base = _summ(u.value[2])
+            for alt in (b'', _ALT_TAIL_A, _ALT_TAIL_B):
+                if bytes(d[n:]) == alt:
+                    continue
+                u2 = common.lib_unmarshal(bytes(d[:n]) + alt)
+                rec.count('mutant_tail_variants')
+                if not u2.ok or u2.value[0] != n or \
+                        _summ(u2.value[2]) != base:
+                    rec.violation(
+                        'decoded-result-depends-on-bytes-after-consumed',
+                        'decode consumed %d bytes; with the bytes after '
+                        'them replaced by %d others the outcome is %s '
+                        'instead of %s' % (n, len(alt), u2.describe()[:150]
+                                           if not u2.ok else
+                                           repr(_summ(u2.value[2]))[:150],
+                                           repr(base)[:150]),
+                        {'type': 'mutants', 'inputs': [d], 'tail': b''})
+                    break
 
 
 def gates(m, tier):
